@@ -333,6 +333,45 @@ def run(ck):
         else:
             ck.violation("4", "T1-no-guard-across-user-code", b, descr, "a dispatcher reference is released while a loop-state guard is live (%s) and no keep-alive witness / emptiness invariant applies: if this is the last reference, the drop glue of the user's source and callback runs under the borrow, and any loop access from it (an Async adapter, an executor's futures) panics or aborts" % held, site=b.where(s.bb))
     ck.floor("4", "dispatcher release sites", ndrop, 8)
+    # ---- clause 3b: the removing operations let go of the dispatcher -----------------------------------------
+    # "released by the end of the dispatch": remove(), the Remove arm and the after-the-fact unregistration hold the
+    # dispatcher they took out of the slot in a local and drop it; they never move it into a call or a field (a
+    # "graveyard" list emptied later keeps source and callback alive for as long as that later step does not run -
+    # e.g. after a dispatch that returned an error)
+    def _is_disp(t):
+        return t is not None and "dyn sources::EventDispatcher" in f.types[t]["s"] and "Rc<" in f.types[t]["s"] and not f.types[t]["s"].startswith("&")
+
+    nrel = 0
+    for q in ("LoopHandle::remove", "EventLoop::dispatch_events"):
+        rb = ck.opt_body(q)
+        if rb is None:
+            ck.anchor_missing("3", "T7-who-may-keep", q)
+            continue
+        kept = []
+        for cs in rb.calls():
+            if rb.is_cleanup(cs.bb) or (cs.f or {}).get("path") in ("std::mem::drop", "std::option::Option::<T>::unwrap", "std::option::Option::<T>::expect"):
+                continue
+            if cs.f and (cs.f.get("path") or "").startswith("std::option::Option::<T>::") and cs.name in ("unwrap", "expect", "unwrap_or", "map", "take", "is_some", "is_none", "as_ref"):
+                continue
+            for a in cs.args:
+                pl = a.get("m")
+                if pl is not None and _is_disp(pl.get("t")):
+                    kept.append("moved into %s at %s" % ((cs.f or {}).get("path") or cs.name, rb.where(cs.bb)))
+        for i, j, st in rb.statements():
+            if st["s"] != "assign" or not st["pl"]["p"] or rb.is_cleanup(i):
+                continue
+            rv = st["rv"]
+            for o in [rv.get("o")] + list(rv.get("fields", [])):
+                pl = (o or {}).get("m")
+                if pl is None or not _is_disp(pl.get("t")):
+                    continue
+                if rv["r"] == "use" and all(v[1] == "None" for v in T.agg_variant(rb, o)) and T.agg_variant(rb, o):
+                    continue  # `entry.source = None`
+                kept.append("stored into %s at %s" % (place_str(st["pl"]), rb.where(i)))
+        nrel += 1
+        ck.verdict(not kept, "3", "T7-who-may-keep", rb, "removed-dispatcher-not-retained", "the dispatcher taken out of the slot is only borrowed and dropped here, never handed to a container or a field", "%s keeps the removed dispatcher alive beyond the operation (%s): source and callback are not released when the removal (or the dispatch) returns, `Dispatcher::into_source_inner` panics, and whatever empties that container later is skipped by an early error return" % (q, "; ".join(kept[:3])), site=rb.where())
+    ck.floor("3", "removing operations checked for retention", nrel, 2)
+
     # ---- shared clauses demonstrated by seeding round 7 (the property broken from a distant module) --------------
     from props import common as _c7
     import importlib as _il
@@ -340,4 +379,8 @@ def run(ck):
     for _cl in ("1", "2", "3", "4"):
         _c7.import_results(ck, _m("C20"), _cl, None, "3")  # a dead token stays dead: 16 generation bits, exact round trip
     _c7.import_results(ck, _m("C02"), "4", "Channel", "2c")  # a closed channel is seen as closed whatever the batch bound
-
+    # ---- shared clauses demonstrated by seeding round 8 (the property broken by added code) --------------------
+    from props import common as _c8
+    import importlib as _il8
+    _m8 = lambda n: _il8.import_module('props.' + n)
+    _c8.import_results(ck, _m8("C07"), "4", "LoopHandle", "3")  # a dead token is answered by the lookup, not by a memo kept beside the list
